@@ -592,8 +592,26 @@ fn gen_control(ctx: &Ctx, emit: &mut dyn FnMut(String)) {
     for _ in 0..nseq {
         let n = rng.range(1, 40) as usize;
         let mut lines: Vec<String> = Vec::new();
+        let porty = rng.chance(1, 4);
+        let other = rng.u8();
+        let vals = [0u8, 0xff, 0x5a, 0xa5, other];
         for _ in 0..n {
-            lines.push(if rng.chance(1, 3) { bad_line(&mut rng) } else { good_line(&mut rng) });
+            lines.push(if porty && rng.chance(2, 3) {
+                // port histories over few values: direction and data register stores interleaved with pin lines, so that a pin
+                // line often carries the value the data register (or the pins) already hold — it must still be acted on
+                let any = rng.range(1, 11) as u32;
+                let port = *rng.pick(&[1u32, 2, 1, 4, 11, any]);
+                let v = *rng.pick(&vals);
+                match rng.below(5) {
+                    0 => format!("u8:{:x}:{:x}", 0xfee000 + port - 1, *rng.pick(&[0u8, 0xff, 0x0f, v])),
+                    1 => format!("u8:{:x}:{:x}", 0xffffd0 + port - 1, v),
+                    _ => format!("ioport:{:x}:{:x}", port, v),
+                }
+            } else if rng.chance(1, 3) {
+                bad_line(&mut rng)
+            } else {
+                good_line(&mut rng)
+            });
         }
         if rng.chance(1, 6) {
             let k = rng.below(lines.len() as u64) as usize;
